@@ -8,11 +8,16 @@
   to its `delete`.
   Tie: (a) regenerated shapes — the leader path's call order of all three wrapped operations and
   the order inside `request.markDone` (result published before `done` is closed); (c) trace
-  validation — event traces of the real `DedupQueue.GetChunk` under a cooperative scheduler are
-  replayed through `step` and the callers' results compared.
+  validation — event traces of the real `DedupQueue.GetChunk` / `DedupQueue.HasChunk` under a
+  cooperative scheduler are replayed through `step` and the callers' results compared; traces of
+  writers, readers and `HasChunk` callers on one real `WriteDedupQueue` are replayed through
+  `WdqSys.step` (`Model/WdqSystem.lean`: `WDedup.step` for the write queue, `Dedup.step` once per kind
+  for the embedded `DedupQueue`), whose components are runs of the machines the theorems are about
+  (`wdq_system_components`).
 -/
 import Desync.Proofs.DedupProofs
 import Desync.Proofs.WriteDedupProofs
+import Desync.Proofs.WdqSystem
 import Desync.Generated.Facts
 
 namespace Desync.C12
@@ -160,5 +165,64 @@ theorem gen_one_queue_per_kind :
     Gen.dedupQueuesOfWriteGetChunk = ["storeChunkQueue", "DedupQueue"] ∧
     Gen.dedupQueuesOfWriteHasChunk = ["DedupQueue"] := by
   decide
+
+/-! ### one `WriteDedupQueue` as a whole (`Model/WdqSystem.lean`) — the machine recorded traces are replayed through
+
+The write queue's machine, and the `DedupQueue` machine once for the readers that passed on into
+`DedupQueue.GetChunk` and once for the `HasChunk` callers. -/
+
+/-- every component of a reachable state of the whole is reachable in its own machine: the theorems above hold
+    of every trace the replay accepts (`WdqSys.replay_reachable`) -/
+theorem wdq_system_components (roles : List WDedup.Role) (hids : List Nat) (s : WdqSys.St)
+    (h : WdqSys.Reachable (WdqSys.St.init roles hids) s) :
+    WDedup.Reachable (WDedup.St.init roles) s.w ∧
+    Dedup.Reachable (Dedup.St.init (roles.map WdqSys.roleId)) s.g ∧
+    Dedup.Reachable (Dedup.St.init hids) s.h :=
+  WdqSys.reachable_components roles hids s h
+
+/-- a caller has moved inside `DedupQueue.GetChunk` only after its locked look at the write queue found no write of
+    its chunk ID in flight -/
+theorem wdq_read_path_only_after_pass (roles : List WDedup.Role) (hids : List Nat) (s : WdqSys.St)
+    (h : WdqSys.Reachable (WdqSys.St.init roles hids) s) (t : Nat) :
+    s.g.callers[t]? = (Dedup.St.init (roles.map WdqSys.roleId)).callers[t]? ∨
+    ∃ id, s.w.callers[t]? = some (.rpass id) ∧ roles[t]? = some (.reader id) := by
+  rcases WdqSys.read_path_only_after_pass roles hids s h t with h0 | h0
+  · exact .inl h0
+  · right
+    simp only [WdqSys.passed] at h0
+    split at h0
+    · rename_i id hc
+      exact ⟨id, hc, WdqSys.rpass_role roles s.w (WdqSys.reachable_components roles hids s h).1 t id hc⟩
+    · simp at h0
+
+/-- **what a `WriteDedupQueue.GetChunk` returns** when it did not meet a write in flight (otherwise:
+    `overlapping_read_sees_written_chunk`): the result of an upstream `GetChunk` for its own chunk ID, made for
+    the request it used -/
+theorem wdq_reader_result_via_read_path (roles : List WDedup.Role) (hids : List Nat) (s : WdqSys.St)
+    (h : WdqSys.Reachable (WdqSys.St.init roles hids) s) (t v r : Nat)
+    (ht : s.g.callers[t]? = some (.returned v r)) :
+    ∃ id, roles[t]? = some (.reader id) ∧ s.w.callers[t]? = some (.rpass id) ∧ (r, v) ∈ s.g.upHist ∧
+      ∃ q, s.g.reqs[r]? = some q ∧ q.id = id ∧ q.done = true ∧ q.val = v :=
+  WdqSys.reader_result_via_read_path roles hids s h t v r ht
+
+/-- non-vacuity: a writer of chunk 1 (data 2), a reader that finds that write in flight and returns its chunk, a
+    reader that arrives after the write's delete, passes and returns what its own upstream `GetChunk` answered
+    (12), and a `HasChunk` caller — the event notation is that of the recorded traces -/
+example : ∃ s, WdqSys.Reachable (WdqSys.St.init [.writer 1 2, .reader 1, .reader 1] [1]) s ∧
+    s.w.callers[0]? = some (.wreturned 0 0) ∧ s.w.callers[1]? = some (.rreturned 2 0 0) ∧
+    s.w.callers[2]? = some (.rpass 1) ∧ s.g.callers[2]? = some (.returned 12 0) ∧
+    s.h.callers[0]? = some (.returned 1 0) := by
+  have hr : ∃ s, WdqSys.replay (WdqSys.St.init [.writer 1 2, .reader 1, .reader 1] [1])
+      [.w (.wcall 0), .w (.rpeek 1), .h (.call 0), .w (.wupRet 0 0), .w (.wmarkDone 0), .w (.rwake 1), .w (.wdelete 0),
+       .w (.rpeek 2), .g (.call 2), .h (.upRet 0 1), .g (.upRet 2 12), .g (.markDone 2), .h (.markDone 0),
+       .g (.delete 2), .h (.delete 0)] = some s ∧
+      s.w.callers[0]? = some (.wreturned 0 0) ∧ s.w.callers[1]? = some (.rreturned 2 0 0) ∧
+      s.w.callers[2]? = some (.rpass 1) ∧ s.g.callers[2]? = some (.returned 12 0) ∧
+      s.h.callers[0]? = some (.returned 1 0) := ⟨_, rfl, rfl, rfl, rfl, rfl, rfl⟩
+  obtain ⟨s, h, rest⟩ := hr
+  exact ⟨s, WdqSys.replay_reachable .refl _ s h, rest⟩
+
+/-- and a step inside `DedupQueue.GetChunk` by a caller that has not passed the write queue is not a behaviour -/
+example : WdqSys.step (WdqSys.St.init [.writer 1 2, .reader 1] []) (.g (.call 1)) = none := rfl
 
 end Desync.C12
